@@ -25,6 +25,31 @@ pub mod cg_mod {
     }
 }
 
+// const parameters declared BEFORE type parameters (allowed since Rust 1.59): the trait's parameter
+// list and the argument list of `impl Trait<..> for ..` must use the same order
+#[entrait(CgConstFirst)]
+fn cg_const_first<const N: usize, T: Clone>(deps: &impl core::any::Any, item: T) -> [T; N] {
+    core::array::from_fn(|_| item.clone())
+}
+#[entrait(CgConstFirstD)]
+fn cg_const_first_d<'a, const N: usize, D, T: Clone, const M: usize, U>(deps: &D, a: &'a [T; N], b: [U; M]) -> &'a [T; N] {
+    a
+}
+#[entrait(CgConstFirstNoDeps, no_deps)]
+fn cg_const_first_no_deps<const N: usize, T>(a: [T; N]) -> usize {
+    N
+}
+#[entrait(CgConstFirstConcrete)]
+fn cg_const_first_concrete<const N: usize, T>(deps: &u8, a: [T; N]) -> usize {
+    N
+}
+#[entrait(pub CgConstFirstMod)]
+pub mod cg_const_first_mod {
+    pub fn in_mod_cf<const N: usize, T>(deps: &impl core::any::Any, a: [T; N]) -> usize {
+        N
+    }
+}
+
 fn w_cg_arr<A: Sync + 'static>() {
     let f: for<'x> fn(&'x Impl<A>, [u8; 3], [u8; 3]) -> [u8; 3] = cg_arr::<Impl<A>, 3>;
     let g: for<'x> fn(&'x Impl<A>, [u8; 3], [u8; 3]) -> [u8; 3] = <Impl<A> as CgArr<3>>::cg_arr;
